@@ -183,6 +183,25 @@ func c12Record(tier string, seed int64, emit func(interface{})) {
 			call("big", in)
 		}
 	}
+	// genome-sized rings just beyond 2^20 (2^21) letters whose least rotation starts in a run of the smallest
+	// letter that the stored origin cuts through ("aaa" + ... + "aa")
+	sizes := []int{1<<20 + rng.Intn(4096)}
+	if tier == "thorough" {
+		sizes = append(sizes, 1<<20, 1<<21+rng.Intn(4096))
+	}
+	for _, n := range sizes {
+		g++
+		b := make([]byte, n)
+		for i := range b {
+			b[i] = "bcd"[rng.Intn(3)]
+		}
+		copy(b, "aaa")
+		copy(b[n-2:], "aa")
+		s := string(b)
+		for _, k := range []int{0, n - 2, n / 2} {
+			call("big", s[k:]+s[:k])
+		}
+	}
 	// long ties: rings well beyond 2^16 letters in which two candidate rotations agree for more than 2^16 letters
 	// (a run with a late exception, a power of a short word with ONE letter changed), cut at the origin, at the
 	// middle, next to the exception and at random
